@@ -116,6 +116,9 @@ def run(chk, replay=None):
             jobs.append((g, role, text, nargs, bx, str(m)[:200]))
         jobs.append((g, "layout", layout.relayout(r, g.text, crlf=r.random() < 0.3), args, bx, ""))
         jobs.append((g, "layout", layout.relayout(r, g.text, crlf=False, comments=True, comment_rate=0.6), args, bx, "comments (multi-byte characters) in front of most tokens"))
+        if "/*" not in g.text and "//" not in g.text:
+            jobs.append((g, "layout", layout.respace(r, g.text), args, bx, "blanks between any two terminals"))
+            jobs.append((g, "layout", layout.respace(r, g.text, rate=1.0, comments=True), args, bx, "blanks and comments between any two terminals"))
         if "match(" in g.text or "match (" in g.text:
             jobs.append((g, "layout", g.text.replace("match(", "match\t(").replace("match (", "match("), args, bx, "blank between match and a parenthesised scrutinee"))
         if g.aliases:
@@ -132,6 +135,31 @@ def run(chk, replay=None):
             chk.violation({"class": "not-opaque", "what": "%s %s: %s || %s" % (role, info, x[:120], text[:200])},
                           {"cmd": "core", "line": ln, "original": g.text, "variant": text, "role": role, "renaming": info, "implementation": x[:600], "expected": bx[:200],
                            "broken": "a consistently renamed / alias-inlined / re-laid-out program is rejected or compiles to a different program"})
+    # ---- an alias is only a name for the type it was given LAST (a second `type N = ..;` re-binds N from there on; aliases built
+    #      from N earlier keep what N meant then): the program equals the one with every use replaced by the definition in effect
+    redef = [
+        ("type Word = u8;\nfn low(x: Word) -> Word { x }\ntype Word = u16;\nfn high(x: Word) -> Word { x }\nfn main() { let a: u8 = low(1); let b: Word = high(0x1234); assert!(jet::eq_16(b, 4660)); }",
+         "fn low(x: u8) -> u8 { x }\nfn high(x: u16) -> u16 { x }\nfn main() { let a: u8 = low(1); let b: u16 = high(0x1234); assert!(jet::eq_16(b, 4660)); }"),
+        ("type A = u8;\ntype B = (A, A);\ntype A = u16;\nfn main() { let x: B = (1, 2); let y: A = 300; let (p, q): B = x; assert!(jet::eq_8(p, 1)); assert!(jet::eq_16(y, 300)); }",
+         "fn main() { let x: (u8, u8) = (1, 2); let y: u16 = 300; let (p, q): (u8, u8) = x; assert!(jet::eq_8(p, 1)); assert!(jet::eq_16(y, 300)); }"),
+        ("type T = bool;\ntype T = Option<u8>;\ntype T = Either<u8, u16>;\nfn main() { let e: T = Right(7); match e { Left(a: u8) => (), Right(b: u16) => assert!(jet::eq_16(b, 7)), }; }",
+         "fn main() { let e: Either<u8, u16> = Right(7); match e { Left(a: u8) => (), Right(b: u16) => assert!(jet::eq_16(b, 7)), }; }"),
+        ("type N = u32;\ntype N = u32;\nfn main() { let x: N = 5; assert!(jet::eq_32(x, 5)); }", "fn main() { let x: u32 = 5; assert!(jet::eq_32(x, 5)); }"),
+        ("type Pubkey2 = u8;\nfn f(k: Pubkey2) -> Pubkey2 { k }\ntype Pubkey2 = u256;\nfn main() { let k: Pubkey2 = 1; let s: u8 = f(3); assert!(jet::eq_8(s, 3)); }",
+         "fn f(k: u8) -> u8 { k }\nfn main() { let k: u256 = 1; let s: u8 = f(3); assert!(jet::eq_8(s, 3)); }"),
+    ]
+    rl = []
+    for a, b in redef:
+        rl += ["(commit %s () 0)" % quote(a), "(commit %s () 0)" % quote(b)]
+    rr = impl("core", rl, shards=1)
+    for i, (a, b) in enumerate(redef):
+        xa, xb = rr[2 * i], rr[2 * i + 1]
+        chk.case(rl[2 * i], sample={"role": "alias-redefined", "outcome": xa[:40]})
+        chk.count("variant.alias-redefined.%s" % ("same" if xa == xb and xa.startswith("(ok") else "different"))
+        if xa != xb or not xa.startswith("(ok"):
+            chk.violation({"class": "not-opaque", "what": "alias defined twice: %s, with the definitions in effect written out: %s || %s" % (xa[:100], xb[:60], a[:160])},
+                          {"cmd": "core", "line": rl[2 * i], "original": a, "variant": b, "role": "alias-redefined", "implementation": xa[:600], "expected": xb[:200],
+                           "broken": "a program whose alias is defined a second time differs from the program with each alias use replaced by the definition in effect at that point"})
     # ---- parentheses are layout in constant contexts too (witness / param modules, value texts)
     consts = [("u8", "5"), ("(u8, u8)", "(5, 7)"), ("Option<u8>", "Some(5)"), ("Either<u8, bool>", "Left(5)"), ("[u8; 2]", "[1, 2]"), ("List<u8, 4>", "list![1, 2, 3]"),
               ("bool", "true"), ("u16", "0x00ff"), ("Option<(u8, bool)>", "Some((1, false))")]
